@@ -137,6 +137,8 @@ const (
 	OpDyLt
 	OpDyLe
 	OpDyEq
+	OpDyDiv // floor division by positive constant (name)
+	OpDyMod // floor modulus by positive constant (name)
 )
 
 type Term struct {
@@ -293,6 +295,10 @@ func (ts *TermStore) Ite(c, a, b *Term) *Term {
 			b = ts.dyOfConst(b)
 		} else if b.sort == SDy && a.sort == SF64 && a.IsConst() {
 			a = ts.dyOfConst(a)
+		} else if a.sort == SDy && b.sort.IsBV() && b.IsConst() {
+			b = ts.miOf(b)
+		} else if b.sort == SDy && a.sort.IsBV() && a.IsConst() {
+			a = ts.miOf(a)
 		} else {
 			unsup("ite over different sorts %v/%v", a.sort, b.sort)
 		}
@@ -315,6 +321,9 @@ func (ts *TermStore) Ite(c, a, b *Term) *Term {
 	return ts.intern(t)
 }
 func (ts *TermStore) Eq(a, b *Term) *Term {
+	if (isMI(a) && b.sort.IsBV()) || (isMI(b) && a.sort.IsBV()) {
+		return ts.FEq(ts.miOf(a), ts.miOf(b))
+	}
 	if a.sort == SF64 || a.sort == SDy || b.sort == SF64 || b.sort == SDy {
 		return ts.FEq(a, b)
 	}
@@ -346,6 +355,9 @@ func (ts *TermStore) Eq(a, b *Term) *Term {
 
 // ---------- bit-vectors ----------
 func (ts *TermStore) bin(op Op, a, b *Term) *Term {
+	if isMI(a) || isMI(b) {
+		return ts.miBin(op, a, b)
+	}
 	if a.sort != b.sort {
 		panic(fmt.Sprintf("bv op %d sort mismatch %v %v", op, a.sort, b.sort))
 	}
@@ -437,6 +449,51 @@ func (ts *TermStore) bin(op Op, a, b *Term) *Term {
 	return ts.intern(&Term{op: op, sort: a.sort, args: []*Term{a, b}})
 }
 
+func (ts *TermStore) miBin(op Op, a, b *Term) *Term {
+	switch op {
+	case OpAdd:
+		return ts.Add(a, b)
+	case OpSub:
+		return ts.Sub(a, b)
+	case OpMul:
+		return ts.Mul(a, b)
+	}
+	// remaining operators need a constant right operand
+	if !(b.sort.IsBV() && b.IsConst()) {
+		unsup("operator %d on mathematical integers needs a constant right operand", op)
+	}
+	k := b.S64()
+	switch op {
+	case OpSDiv:
+		if k == 0 {
+			unsup("division by zero constant")
+		}
+		return ts.miDivTrunc(a, k)
+	case OpSRem:
+		if k == 0 {
+			unsup("division by zero constant")
+		}
+		q := ts.miDivTrunc(a, k)
+		return ts.Sub(a, ts.Mul(q, ts.BV(64, uint64(k))))
+	case OpAShr:
+		if k < 0 || k > 52 {
+			unsup("shift amount %d on mathematical integer", k)
+		}
+		return ts.miCanon(ts.miDivFloor(a, int64(1)<<uint(k)))
+	case OpShl:
+		if k < 0 || k > 52 {
+			unsup("shift amount %d on mathematical integer", k)
+		}
+		return ts.Mul(a, ts.BV(64, uint64(1)<<uint(k)))
+	case OpBAnd:
+		if k > 0 && (k+1)&k == 0 { // mask 2^j - 1
+			return ts.miCanon(ts.miMod(a, k+1))
+		}
+	}
+	unsup("operator %d with constant %d on a mathematical integer", op, k)
+	return nil
+}
+
 func sx(v uint64, w int) int64 {
 	sh := uint(64 - w)
 	return int64(v<<sh) >> sh
@@ -503,14 +560,111 @@ func foldBV(op Op, w int, a, b uint64) (uint64, bool) {
 	return 0, false
 }
 
-func (ts *TermStore) Add(a, b *Term) *Term  { return ts.bin(OpAdd, a, b) }
-func (ts *TermStore) Sub(a, b *Term) *Term  { return ts.bin(OpSub, a, b) }
-func (ts *TermStore) Mul(a, b *Term) *Term  { return ts.bin(OpMul, a, b) }
+// Mathematical-integer representation ("MI"): a Go int held as a dyadic term with scale 0. All
+// integer constructors below dispatch to exact Int arithmetic when an operand is MI; bound tracking
+// (|m| < 2^53) guarantees that machine arithmetic cannot wrap, so MI and two's complement agree.
+func isMI(t *Term) bool { return t.sort == SDy }
+
+func (ts *TermStore) miOf(t *Term) *Term {
+	if t.sort == SDy {
+		if t.scale != 0 {
+			unsup("fractional dyadic value used as an integer")
+		}
+		return t
+	}
+	if t.sort.IsBV() && t.IsConst() {
+		v := t.S64()
+		return ts.intern(&Term{op: OpConst, sort: SDy, name: fmt.Sprint(v), scale: 0, bnd: math.Abs(float64(v))})
+	}
+	unsup("mixing a mathematical-integer value with a symbolic bit-vector")
+	return nil
+}
+
+func (ts *TermStore) miConst(v int64) *Term {
+	return ts.intern(&Term{op: OpConst, sort: SDy, name: fmt.Sprint(v), scale: 0, bnd: math.Abs(float64(v))})
+}
+
+// canonical result: a constant MI folds back to a BV64 constant
+func (ts *TermStore) miCanon(t *Term) *Term {
+	if t.sort == SDy && t.op == OpConst && t.scale == 0 {
+		m := dyConstBig(t)
+		if m.IsInt64() {
+			return ts.BV(64, uint64(m.Int64()))
+		}
+	}
+	return t
+}
+
+func (ts *TermStore) Add(a, b *Term) *Term {
+	if isMI(a) || isMI(b) {
+		return ts.miCanon(ts.FAdd(ts.miOf(a), ts.miOf(b)))
+	}
+	return ts.bin(OpAdd, a, b)
+}
+func (ts *TermStore) Sub(a, b *Term) *Term {
+	if isMI(a) || isMI(b) {
+		return ts.miCanon(ts.FSub(ts.miOf(a), ts.miOf(b)))
+	}
+	return ts.bin(OpSub, a, b)
+}
+func (ts *TermStore) Mul(a, b *Term) *Term {
+	if isMI(a) || isMI(b) {
+		return ts.miCanon(ts.FMul(ts.miOf(a), ts.miOf(b)))
+	}
+	return ts.bin(OpMul, a, b)
+}
+
+// floor division / modulus of an MI value by a positive constant
+func (ts *TermStore) miDivFloor(a *Term, k int64) *Term {
+	a = ts.miOf(a)
+	if k <= 0 {
+		unsup("division of a mathematical integer by a non-positive constant")
+	}
+	if k == 1 {
+		return a
+	}
+	if a.op == OpConst {
+		m := dyConstBig(a)
+		q := new(big.Int).Div(m, big.NewInt(k)) // Euclidean == floor for positive divisor
+		return ts.miCanon(ts.intern(&Term{op: OpConst, sort: SDy, name: q.String(), bnd: math.Abs(float64(q.Int64()))}))
+	}
+	return ts.intern(&Term{op: OpDyDiv, sort: SDy, args: []*Term{a}, name: fmt.Sprint(k), bnd: a.bnd/float64(k) + 1})
+}
+func (ts *TermStore) miMod(a *Term, k int64) *Term {
+	a = ts.miOf(a)
+	if k <= 0 {
+		unsup("modulus of a mathematical integer by a non-positive constant")
+	}
+	if a.op == OpConst {
+		m := dyConstBig(a)
+		q := new(big.Int).Mod(m, big.NewInt(k))
+		return ts.miCanon(ts.intern(&Term{op: OpConst, sort: SDy, name: q.String(), bnd: float64(q.Int64())}))
+	}
+	return ts.intern(&Term{op: OpDyMod, sort: SDy, args: []*Term{a}, name: fmt.Sprint(k), bnd: float64(k)})
+}
+// truncated division (Go's /) by a non-zero constant
+func (ts *TermStore) miDivTrunc(a *Term, k int64) *Term {
+	a = ts.miOf(a)
+	neg := k < 0
+	if neg {
+		k = -k
+	}
+	zero := ts.miConst(0)
+	q := ts.Ite(ts.FLe(zero, a), ts.miDivFloor(a, k), ts.FNeg(ts.miOf(ts.miDivFloor(ts.FNeg(a), k))))
+	if neg {
+		q = ts.FNeg(ts.miOf(q))
+	}
+	return ts.miCanon(q)
+}
+
 func (ts *TermStore) BAnd(a, b *Term) *Term { return ts.bin(OpBAnd, a, b) }
 func (ts *TermStore) BOr(a, b *Term) *Term  { return ts.bin(OpBOr, a, b) }
 func (ts *TermStore) BXor(a, b *Term) *Term { return ts.bin(OpBXor, a, b) }
 
 func (ts *TermStore) BNot(a *Term) *Term {
+	if isMI(a) {
+		return ts.Sub(ts.Neg(a), ts.BV(64, 1))
+	}
 	w := a.sort.Width()
 	if a.IsConst() {
 		return ts.BV(w, ^a.cu)
@@ -518,6 +672,9 @@ func (ts *TermStore) BNot(a *Term) *Term {
 	return ts.intern(&Term{op: OpBNot, sort: a.sort, args: []*Term{a}})
 }
 func (ts *TermStore) Neg(a *Term) *Term {
+	if isMI(a) {
+		return ts.miCanon(ts.FNeg(a))
+	}
 	w := a.sort.Width()
 	if a.IsConst() {
 		return ts.BV(w, -a.cu)
@@ -526,6 +683,26 @@ func (ts *TermStore) Neg(a *Term) *Term {
 }
 
 func (ts *TermStore) cmp(op Op, a, b *Term) *Term {
+	if isMI(a) || isMI(b) {
+		a, b = ts.miOf(a), ts.miOf(b)
+		switch op {
+		case OpSLt:
+			return ts.FLt(a, b)
+		case OpSLe:
+			return ts.FLe(a, b)
+		}
+		// unsigned comparison of 64-bit patterns: negative values are the large ones
+		zero := ts.miConst(0)
+		an, bn := ts.FLt(a, zero), ts.FLt(b, zero)
+		var lt *Term
+		if op == OpULt {
+			lt = ts.FLt(a, b)
+		} else {
+			lt = ts.FLe(a, b)
+		}
+		// (a>=0 & b<0) | (sign equal & a<b)
+		return ts.Or(ts.And(ts.Not(an), bn), ts.And(ts.Eq(an, bn), lt))
+	}
 	if a.sort != b.sort {
 		panic(fmt.Sprintf("cmp sort mismatch %v %v", a.sort, b.sort))
 	}
@@ -555,6 +732,9 @@ func (ts *TermStore) SLt(a, b *Term) *Term { return ts.cmp(OpSLt, a, b) }
 func (ts *TermStore) SLe(a, b *Term) *Term { return ts.cmp(OpSLe, a, b) }
 
 func (ts *TermStore) ZExt(a *Term, w int) *Term {
+	if isMI(a) {
+		return a
+	}
 	aw := a.sort.Width()
 	if aw == w {
 		return a
@@ -568,6 +748,9 @@ func (ts *TermStore) ZExt(a *Term, w int) *Term {
 	return ts.intern(&Term{op: OpZExt, sort: bvSort(w), args: []*Term{a}, p1: w})
 }
 func (ts *TermStore) SExt(a *Term, w int) *Term {
+	if isMI(a) {
+		return a
+	}
 	aw := a.sort.Width()
 	if aw == w {
 		return a
@@ -925,6 +1108,9 @@ func (ts *TermStore) FBits(a *Term) *Term {
 	return ts.intern(&Term{op: OpFBits, sort: SBV64, args: []*Term{a}})
 }
 func (ts *TermStore) FFromInt(a *Term, signed bool) *Term {
+	if isMI(a) {
+		return a // the same number; exact because |m| < 2^53
+	}
 	if a.IsConst() {
 		if signed {
 			return ts.F64C(float64(a.S64()))
@@ -1142,6 +1328,12 @@ func (e *evalCtx) eval1(t *Term) evalVal {
 	case OpDyScale:
 		k, _ := new(big.Int).SetString(t.name, 10)
 		return evalVal{bi: new(big.Int).Mul(a(0).bi, k)}
+	case OpDyDiv:
+		k, _ := new(big.Int).SetString(t.name, 10)
+		return evalVal{bi: new(big.Int).Div(a(0).bi, k)}
+	case OpDyMod:
+		k, _ := new(big.Int).SetString(t.name, 10)
+		return evalVal{bi: new(big.Int).Mod(a(0).bi, k)}
 	case OpDyLt:
 		return evalVal{u: b2u(a(0).bi.Cmp(a(1).bi) < 0)}
 	case OpDyLe:
@@ -1437,6 +1629,10 @@ func (em *Emitter) emit1(t *Term) {
 		body = un("-")
 	case OpDyScale:
 		body = fmt.Sprintf("(* %s %s)", intLit(t.name), r(0))
+	case OpDyDiv:
+		body = fmt.Sprintf("(div %s %s)", r(0), t.name)
+	case OpDyMod:
+		body = fmt.Sprintf("(mod %s %s)", r(0), t.name)
 	case OpDyLt:
 		body = bi("<")
 	case OpDyLe:
